@@ -23,6 +23,7 @@ E: each transformation (copy mapper, map_and_copy(identity), deduplicate,
 """
 from __future__ import annotations
 
+import json
 import multiprocessing as mp
 import pickle
 from typing import Any
@@ -161,6 +162,22 @@ def enrich(prog: dict, rng: np.random.Generator) -> dict:
         ref = ninp + k + 1
         calls.append({"op": "tag", "a": ref, "tag": str(rng.choice(["Foo", "Bar", "Baz:1"]))})
         prog["outs"][f"out{len(prog['outs'])}"] = ninp + len(calls)
+    # pre-chosen implementation strategies on intermediate values that are read
+    # again afterwards (what the materialisation strategy has to respect)
+    if calls and rng.random() < 0.35:
+        k = int(rng.integers(len(calls)))
+        ref = ninp + k + 1
+        calls.append({"op": "tag", "a": ref,
+                      "tag": str(rng.choice(["ImplStored", "ImplInlined", "ImplInlined"]))})
+        t = ninp + len(calls)
+        if numpy_accepts(prog, calls + [{"op": "add", "a": t, "b": t}]):
+            calls.append({"op": "add", "a": t, "b": t})
+            prog["outs"][f"out{len(prog['outs'])}"] = ninp + len(calls)
+            calls.append({"op": "neg", "a": t})
+            if numpy_accepts(prog, calls):
+                prog["outs"][f"out{len(prog['outs'])}"] = ninp + len(calls)
+            else:
+                calls.pop()
     prog["calls"] = calls
     # two data wrappers over one buffer (what deduplicate_data_wrappers is for)
     dws = [i for i in prog["inputs"] if i.get("kind") == "dw"]
@@ -195,13 +212,75 @@ def directed_views() -> list[dict]:
     return out
 
 
+def directed_mpms() -> list[dict]:
+    """Chains of NESTED materialisation candidates: t_k = t_(k-1) (op) in_k,
+    every t_k read by two later nodes, so that each has more than one
+    materialised predecessor (the stored t_(k-1) and an input) and more than
+    one successor -- the case in which the decision for t_k depends on the
+    decision taken for t_(k-1) in the same pass."""
+    out = []
+    for depth in (2, 3, 4):
+        for ops in (("add", "mul"), ("mul", "sub"), ("sub", "add")):
+            inputs = [progspace.inp(f"x{j}", (3,)) for j in range(depth + 1)]
+            calls: list[dict] = []
+            ts = []
+            prev = 1
+            for k in range(depth):
+                calls.append({"op": ops[k % 2], "a": prev, "b": k + 2})
+                prev = len(inputs) + len(calls)
+                ts.append(prev)
+            outs = {}
+            # every t_k gets a second reader besides t_(k+1): a node t_k (op) t_j
+            for k, t in enumerate(ts):
+                other = ts[(k + 1) % len(ts)] if len(ts) > 1 else 1
+                calls.append({"op": "add", "a": t, "b": other})
+                outs[f"out{k}"] = len(inputs) + len(calls)
+            calls.append({"op": "mul", "a": ts[-1], "b": ts[0]})
+            outs[f"out{len(ts)}"] = len(inputs) + len(calls)
+            for pipe in (["mpms"], ["mpms", "mpms"], ["dedup", "mpms", "copy"]):
+                out.append({"id": f"mpmschain_{depth}_{'-'.join(ops)}_{'-'.join(pipe)}",
+                            "inputs": inputs, "calls": calls, "outs": outs,
+                            "pipeline": pipe})
+    return out
+
+
+def fan_out(p: dict, rng: np.random.Generator) -> dict:
+    """Adds readers: pairs of existing same-shaped intermediate values are
+    added up and become extra outputs, so that intermediates have several
+    successors (sharing is what the materialisation strategy looks at)."""
+    p = json.loads(json.dumps(p))
+    ninp = len(p["inputs"])
+    nb = rp.NpBackend({i["name"]: np.ones(i["shape"], rp.DT[i["dtype"]]) for i in p["inputs"]})
+    try:
+        with np.errstate(all="ignore"):
+            nb.run(p)
+    except Exception:      # noqa: BLE001
+        return p
+    vals = nb.values
+    cands = [k + 1 for k in range(ninp, len(vals)) if vals[k] is not None
+             and np.asarray(vals[k]).dtype.kind == "f"]
+    added = 0
+    for _ in range(6):
+        if len(cands) < 2 or added >= 3:
+            break
+        a, b = (int(x) for x in rng.choice(cands, size=2, replace=False))
+        if np.asarray(vals[a - 1]).shape != np.asarray(vals[b - 1]).shape:
+            continue
+        p["calls"].append({"op": "add", "a": a, "b": b})
+        p["outs"][f"fan{added}"] = ninp + len(p["calls"])
+        added += 1
+    return p
+
+
 def programs(tier: str) -> list[dict]:
     rng = np.random.default_rng(seed())
     n = 600 if tier == "quick" else 6000
-    progs = directed_views()
+    progs = directed_views() + directed_mpms()
     for k in range(n):
         p = progspace.random_program(rng, f"p{k}", int(rng.integers(2, 8)))
         p = enrich(p, rng)
+        if k % 4 == 0:
+            p = fan_out(p, rng)
         r = rng.random()
         if r < 0.65:
             p["pipeline"] = [STEPS[k % len(STEPS)]]
